@@ -1,7 +1,8 @@
 import ChiDriver.Common
 import ChiDriver.C08
 import ChiModel.Purity
-open Wire ChiModel.Reduced ChiModel.Purity
+import ChiModel.Ownership
+open Wire ChiModel.Reduced ChiModel.Purity ChiModel.Ownership
 namespace ChiDriver.C19
 
 /-- `C19.seq names ops frees` → for every evaluation the full vector the wrapped object sees,
@@ -18,5 +19,39 @@ def seq : Op
     some [.list (r.2.map ofFlts), .list mask]
   | _ => none
 
-def ops : List (String × Op) := [("C19.seq", seq)]
+/-- one step of a world program -/
+inductive WStep where
+  | new (k : Nat)
+  | derive (src dst : Nat)
+  | fix (k : Nat) (d : Req Float)
+  | eval (k : Nat) (free : List Float)
+
+def parseStep (v : Val) : Option WStep := do
+  match v with
+  | .list [.str "new", k] => some (.new (← k.nat?))
+  | .list [.str "derive", s, d] => some (.derive (← s.nat?) (← d.nat?))
+  | .list [.str "fix", k, r] => some (.fix (← k.nat?) (← ChiDriver.C08.parseReq r))
+  | .list [.str "eval", k, f] => some (.eval (← k.nat?) (← f.flts?))
+  | _ => none
+
+/-- `C19.world names program cells` → the full vector the wrapped error model sees at every `eval`
+    step, and the final mask of every listed cell.  Derived objects own a deep copy (`Ownership.deepCopy`). -/
+def world : Op
+  | [namesV, progV, cellsV] => do
+    let names ← namesV.strs?
+    let prog ← (← progV.list?).mapM parseStep
+    let cells ← cellsV.nats?
+    let nan : Float := 0.0 / 0.0
+    let step : (Store Float × List Val) → WStep → (Store Float × List Val) := fun (σ, out) s =>
+      match s with
+      | .new k => (setCell σ k none, out)
+      | .derive a b => (deepCopy σ a b, out)
+      | .fix k d => (act names nan σ (.fix k d), out)
+      | .eval k free => (act names nan σ (.eval k free), out ++ [ofFlts (evalFresh (σ k) (fun x => x) free)])
+    let r := prog.foldl step ((fun _ => none), [])
+    let masks := cells.map (fun k => Val.list ((view names nan (r.1 k)).map (fun x => Val.bool x.1)))
+    some [.list r.2, .list masks]
+  | _ => none
+
+def ops : List (String × Op) := [("C19.seq", seq), ("C19.world", world)]
 end ChiDriver.C19
